@@ -1,6 +1,7 @@
 package harness
 
 import (
+	"fmt"
 	"sort"
 	"strconv"
 
@@ -21,7 +22,14 @@ type CloneMut struct {
 }
 
 type C08Case struct {
-	Root V `json:"root"`
+	// Deep > 0: additionally a chain of this many nested containers, grown top-down through the handle of
+	// the innermost one (no single storing call ever sees a deep value), is cloned
+	Deep int `json:"deep,omitempty"`
+	// ListOf > 0: additionally a host holding NewListOf(container, ListOf) is cloned after ListOfOp
+	// (0 nothing, 1 Pop, 2 Delete(0), 3 Replace(0, scalar)) was applied to that list
+	ListOf   int `json:"listof,omitempty"`
+	ListOfOp int `json:"listofop,omitempty"`
+	Root     V   `json:"root"`
 	// Share: after building, the container found at raw selector ShareFrom is
 	// additionally stored inside the container at selector ShareInto (a DAG),
 	// when that does not create a cycle.
@@ -62,6 +70,12 @@ func GenC08(t *rapid.T) *C08Case {
 		}
 	}
 	c := &C08Case{Root: root}
+	if oneIn(t, 400, "verydeep") {
+		c.Deep = 10001 + drawInt(t, 0, 200, "deeper") // beyond any plausible nesting limit
+	}
+	if oneIn(t, 6, "listof") {
+		c.ListOf, c.ListOfOp = drawInt(t, 2, 4, "listofn"), drawInt(t, 0, 3, "listofop")
+	}
 	if drawBool(t, "variant") {
 		c.Build = 1 + genRaw(t)
 	}
@@ -171,6 +185,9 @@ func applyCloneMut(root any, n any, m CloneMut) (applied bool) {
 			x.Delete()
 			x.Add()
 			catch(func() { x.UnsetTF("#" + strconv.Itoa(cnt+3)) })
+		case "pad":
+			// a tree-form write behind the end: the gap is filled with nils (within or beyond the spare capacity)
+			x.SetTF("#"+strconv.Itoa(cnt+1+m.A%3), v)
 		case "add":
 			x.Add(v)
 		case "insert":
@@ -254,7 +271,138 @@ func containsIdent(ids []any, x any) bool {
 	return false
 }
 
+// checkDeepClone clones a chain of n nested containers that was grown top-down.
+func checkDeepClone(n int, st *Stats) error {
+	root := at.NewList("top")
+	var cur any = root
+	for i := 0; i < n; i++ {
+		var next any
+		if i%3 == 2 {
+			next = at.NewObject()
+		} else {
+			next = at.NewList()
+		}
+		switch x := cur.(type) {
+		case at.List:
+			x.Add(next)
+		case at.Object:
+			x.Set("k", next)
+		}
+		cur = next
+	}
+	cur.(interface{ Count() int }).Count()
+	var clone at.List
+	if p, panicked := catch(func() { clone = root.Clone() }); panicked {
+		return errf("Clone of a chain of %d nested containers (grown top-down) panicked: %v", n, p)
+	}
+	// walk both chains in lockstep: same shape, no shared container
+	step := func(x any) any {
+		switch c := x.(type) {
+		case at.List:
+			if c.Count() == 0 {
+				return nil
+			}
+			return c.Get(c.Count() - 1)
+		case at.Object:
+			if !c.KeyExists("k") {
+				return nil
+			}
+			return c.Get("k")
+		}
+		return nil
+	}
+	var a, b any = root, clone
+	depth := 0
+	for {
+		if a == b {
+			return errf("the clone of a %d-level chain shares the container at level %d with the original", n, depth)
+		}
+		na, nb := step(a), step(b)
+		_, aIsCont := na.(interface{ Count() int })
+		_, bIsCont := nb.(interface{ Count() int })
+		if aIsCont != bIsCont {
+			return errf("the clone of a %d-level chain differs in shape at level %d", n, depth)
+		}
+		if !aIsCont {
+			break
+		}
+		a, b = na, nb
+		depth++
+	}
+	if depth != n {
+		return errf("a chain grown to %d levels has %d levels", n, depth)
+	}
+	// the innermost containers are independent
+	switch x := b.(type) {
+	case at.List:
+		x.Add("changed")
+	case at.Object:
+		x.Set("changed", 1)
+	}
+	if a.(interface{ Count() int }).Count() != 0 {
+		return errf("a change of the innermost container of the clone of a %d-level chain shows in the original", n)
+	}
+	st.Count("deep_chain_cloned")
+	return nil
+}
+
+// checkListOfClone: a list made by NewListOf(container, n) holds ONE instance n times; after one position
+// was removed or overwritten, a clone of the host must still be a deep copy.
+func checkListOfClone(n, op int, st *Stats) error {
+	inner := at.NewObject("v", at.NewList(1, 2))
+	lo := at.NewListOf(inner, n)
+	host := at.NewObject("lo", lo, "x", 1)
+	switch op % 4 {
+	case 1:
+		lo.Pop()
+	case 2:
+		lo.Delete(0)
+	case 3:
+		lo.Replace(0, "scalar")
+	}
+	before, err := TakeIdentSnap(host)
+	if err != nil {
+		return err
+	}
+	var clone at.Object
+	if p, panicked := catch(func() { clone = host.Clone() }); panicked {
+		return errf("Clone of a host holding NewListOf(container, %d) after operation %d panicked: %v", n, op%4, p)
+	}
+	cs, err := TakeIdentSnap(clone)
+	if err != nil {
+		return err
+	}
+	if !EqVBits(cs.Tree, before.Tree) {
+		return errf("clone of a host holding NewListOf(container, %d) after operation %d differs: %s vs %s", n, op%4, cs.Tree.Show(), before.Tree.Show())
+	}
+	have := map[any]bool{}
+	for _, id := range before.IDs {
+		have[id] = true
+	}
+	for _, id := range cs.IDs {
+		if have[id] {
+			return errf("the clone of a host holding NewListOf(container, %d) shares %s with the original (operation %d was applied to the list before)", n, showAny(id), op%4)
+		}
+	}
+	inner.GetList("v").Add("changed")
+	if after, _ := TakeIdentSnap(clone); !EqVBits(after.Tree, cs.Tree) {
+		return errf("a change inside the container repeated by NewListOf shows in a clone taken earlier (operation %d): %s", op%4, after.Tree.Show())
+	}
+	st.Count(fmt.Sprintf("listof_clone.op%d", op%4))
+	return nil
+}
+
 func CheckC08(c *C08Case, st *Stats) error {
+	if c.Deep > 0 {
+		if err := checkDeepClone(c.Deep, st); err != nil {
+			return err
+		}
+	}
+	if c.ListOf > 0 {
+		if err := checkListOfClone(c.ListOf, c.ListOfOp, st); err != nil {
+			return err
+		}
+	}
 	if c.Root.K != KList && c.Root.K != KObject {
 		return nil
 	}
@@ -396,7 +544,7 @@ func CheckC08(c *C08Case, st *Stats) error {
 
 func init() {
 	Register("C08",
-		"trees (depth >= 2 favoured; chains up to 70 levels; built through drawn construction routes; one in five turned into a DAG by storing one reachable container a second time; one in five with nested containers that are user-defined derived types) are cloned; then 1-12 mutations are applied at a drawn container of a drawn side (original or clone): Add, Insert, Replace, Delete, Pop, Clear, Reverse, Sort (in domain), Set, Unset, Clear, and SetTF/UnsetTF from the root with well-formed paths. Oracle: clone.Equals(orig) both ways; snapshot content equal; the sets of container identities reachable from the two roots are disjoint; Clone leaves the receiver unchanged; after every mutation the OTHER side's snapshot (content bits and identities) equals its snapshot before the mutation. Non-trivial = tree with a nested container at depth >= 2 and at least one applied mutation on a non-root container. Distinct = distinct FNV-64a hash of the case JSON.",
+		"trees (depth >= 2 favoured; chains up to 70 levels; one case in 400 also clones a chain of 10001-10200 containers grown top-down, one in six a host holding NewListOf(container, 2-4) after a Pop / Delete / Replace on that list; built through drawn construction routes; one in five turned into a DAG by storing one reachable container a second time; one in five with nested containers that are user-defined derived types) are cloned; then 1-12 mutations are applied at a drawn container of a drawn side (original or clone): Add, Insert, Replace, Delete, Pop, Clear, Reverse, Sort (in domain), Set, Unset, Clear, and SetTF/UnsetTF from the root with well-formed paths. Oracle: clone.Equals(orig) both ways; snapshot content equal; the sets of container identities reachable from the two roots are disjoint; Clone leaves the receiver unchanged; after every mutation the OTHER side's snapshot (content bits and identities) equals its snapshot before the mutation. Non-trivial = tree with a nested container at depth >= 2 and at least one applied mutation on a non-root container. Distinct = distinct FNV-64a hash of the case JSON.",
 		GenC08, CheckC08)
 }
 
